@@ -4,6 +4,9 @@ open MtxVerif MtxVerif.C39
 structure D where
   st : St := {}
   sp : SpecSt := {}
+  /-- path-level history (`reset @path …`): the real `core.path` drives the manager and only
+  `APIForwardDestList` and the goroutine dump are observed — no started flag, stream or done channel -/
+  reduced : Bool := false
 
 def parseConf (w : String) : Option Conf :=
   match w.splitOn "," with
@@ -14,17 +17,19 @@ def fmtConf (c : Conf) : String := s!"{c.dest},{c.fp},{c.tok}"
 
 def b01 (b : Bool) : String := if b then "1" else "0"
 
-def fmtHandler (h : Handler) : String :=
-  s!"{h.id}|{h.pos}|{b01 h.running}|{h.epoch}|{b01 h.running}|{fmtConf h.conf}"
+def fmtHandler (reduced : Bool) (h : Handler) : String :=
+  s!"{h.id}|{h.pos}|{b01 h.running}|{if reduced then 0 else h.epoch}|{b01 h.running}|{fmtConf h.conf}"
 
 def panicNil : String := "panic runtime error: invalid memory address or nil pointer dereference"
 def panicScheme : String := "panic should not happen"
 
-def fmtSt (s : St) : String :=
+def fmtSt (reduced : Bool) (s : St) : String :=
   let rl := (s.retired.filter (·.running)).map (fun h => toString h.id)
   let rls := if rl.isEmpty then "-" else ",".intercalate rl
-  let hs := s.handlers.map fmtHandler
-  s!"s={b01 s.started} t={s.stream} g={goroutines s} r={s.retired.length} rl={rls} h=" ++
+  let hs := s.handlers.map (fmtHandler reduced)
+  let st := if reduced then "x" else b01 s.started
+  let tk := if reduced then "x" else toString s.stream
+  s!"s={st} t={tk} g={goroutines s} r={s.retired.length} rl={rls} h=" ++
     (if hs.isEmpty then "" else " " ++ " ".intercalate hs)
 
 def parseKV (key w : String) : Option String :=
@@ -69,19 +74,22 @@ def verdict (sp : SpecSt) (isReload : Bool) (impl : String) : SpecSt × String :
       ({ sp with prev := o.hs, seen := addSeen sp.seen o.hs },
         match e with | none => "ok" | some m => "FAIL " ++ m)
 
-def modelOut (before after : St) (panicMsg : String) : String :=
-  if before.dead then "-" else if after.dead then panicMsg else fmtSt after
+def modelOut (reduced : Bool) (before after : St) (panicMsg : String) : String :=
+  if before.dead then "-" else if after.dead then panicMsg else fmtSt reduced after
 
 def step (d : D) (op impl : String) : D × DrvOut :=
   match words op with
   | "reset" :: confs =>
+    let reduced := confs.head? == some "@path"
+    let confs := if reduced then confs.drop 1 else confs
     match confs.mapM parseConf with
     | none => (d, { model := "bad-op" })
     | some f =>
       let st := initSt f
       let sp : SpecSt := { cfg := f, wfOK := f.all validScheme }
       let (sp, v) := verdict sp false impl
-      ({ st := st, sp := sp }, { model := if st.dead then panicScheme else fmtSt st, spec := v })
+      ({ st := st, sp := sp, reduced := reduced },
+        { model := if st.dead then panicScheme else fmtSt reduced st, spec := v })
   | ["start", k] =>
     match k.toNat? with
     | none => (d, { model := "bad-op" })
@@ -89,12 +97,12 @@ def step (d : D) (op impl : String) : D × DrvOut :=
       let st := C39.step d.st (.start k)
       let sp := { d.sp with wfOK := d.sp.wfOK && !d.sp.avail, avail := true, strm := k }
       let (sp, v) := verdict sp false impl
-      ({ st := st, sp := sp }, { model := modelOut d.st st panicNil, spec := v })
+      ({ d with st := st, sp := sp }, { model := modelOut d.reduced d.st st panicNil, spec := v })
   | ["stop"] =>
     let st := C39.step d.st .stop
     let sp := { d.sp with wfOK := d.sp.wfOK && d.sp.avail, avail := false }
     let (sp, v) := verdict sp false impl
-    ({ st := st, sp := sp }, { model := modelOut d.st st panicNil, spec := v })
+    ({ d with st := st, sp := sp }, { model := modelOut d.reduced d.st st panicNil, spec := v })
   | "reload" :: confs =>
     match confs.mapM parseConf with
     | none => (d, { model := "bad-op" })
@@ -103,7 +111,7 @@ def step (d : D) (op impl : String) : D × DrvOut :=
       let sp := { d.sp with wfOK := d.sp.wfOK && f.all validScheme, cfg := f }
       let (sp, v) := verdict sp true impl
       let pm := if (created d.st.handlers f).all validScheme then panicNil else panicScheme
-      ({ st := st, sp := sp }, { model := modelOut d.st st pm, spec := v })
+      ({ d with st := st, sp := sp }, { model := modelOut d.reduced d.st st pm, spec := v })
   | _ => (d, { model := "bad-op" })
 
 def main (args : List String) : IO UInt32 := runDriver args ({} : D) step
